@@ -269,18 +269,29 @@ def wrap_order(ctx):
     lp = loops[0]
     ev = lp.target.id
     tg = [s for s in ast.walk(lp) if isinstance(s, ast.Assign) and src(s.targets[0]) == targetp]
-    ok = bool(tg) and any(n_ is tg[-1] for n_, _e in P.find(lp, "%s = '%%s(%%s)' %% (%s, %s)" % (targetp, ev, targetp)))
+    # the fold: target = "<f>(<target>)" where <f> is the resolved name of this filter (a value computed from the loop variable)
+    fvar = None
+    ok = False
+    if tg:
+        for n_, env_ in P.find(lp, "%s = '%%s(%%s)' %% ($f, %s)" % (targetp, targetp)):
+            if n_ is tg[-1] and isinstance(env_["f"][1], ast.Name):
+                fvar = env_["f"][1].id
+                ok = True
     ctx.check(ok, "fold", db.where(lp), "the fold is `%s`: the previous target must be the argument of the next filter" % (src(tg[-1]) if tg else None), 'target = "%s(%s)" % (e, target)')
     ctx.check(tg and tg[-1] in lp.body, "fold-every-filter", db.where(lp), "the fold is conditional", "applied for every filter")
-    first = lp.body[0]
-    ctx.check(isinstance(first, ast.If) and P.has(first.test, "%s == 'n'" % ev) and isinstance(first.body[0], ast.Continue), "n-skipped", db.where(lp), "`n` is not skipped", "`n` never emitted")
+    skips = [i_ for i_ in lp.body if isinstance(i_, ast.If) and P.matches(i_.test, "%s == 'n'" % ev) and len(i_.body) == 1 and isinstance(i_.body[0], ast.Continue)]
+    ctx.check(bool(skips) and bool(tg) and skips[0].lineno < tg[-1].lineno, "n-skipped", db.where(lp), "`n` is not skipped", "`n` never emitted")
     rets = [r for r in fn.body if isinstance(r, ast.Return)]
     ctx.check(bool(rets) and src(rets[-1].value) == targetp, "returns-target", db.where(fn), "returns %s" % (src(rets[-1].value) if rets else None), "returns the folded target")
-    le = db.func("codegen._GenerateRenderMethod.create_filter_callable.locate_encode")
-    t = src(le)
-    ctx.check(P.has(le, "'filters.' + $n") and P.has(le, "filters.DEFAULT_ESCAPES.get($n, $n)") and "decode" in t, "locate", db.where(le), "locate_encode no longer maps decode.<enc> to filters.decode.<enc> and other names through DEFAULT_ESCAPES (unknown names unchanged)", "decode.x -> filters.decode.x ; flag -> DEFAULT_ESCAPES ; other name unchanged")
-    t = src(lp)
-    ctx.check(P.has(lp, "($i, $a) = $m.group(1, 2)\n$f = locate_encode($i)\n$e = $f + $a"), "call-filters", db.where(lp), "filters written as calls lose their arguments or are not resolved by name", "name resolved, arguments kept")
+    # name resolution of one filter (the local helper locate_encode, wherever its body stands)
+    helper = [f_ for f_ in ast.walk(fn) if isinstance(f_, ast.FunctionDef) and f_ is not fn]
+    scope = helper + [lp]
+    okl = any(P.has(x_, "'filters.' + $n if re.match($rx, $n) else filters.DEFAULT_ESCAPES.get($n, $n)") or (P.has(x_, "'filters.' + $n") and P.has(x_, "filters.DEFAULT_ESCAPES.get($n, $n)")) for x_ in scope) and any(isinstance(c_, ast.Constant) and isinstance(c_.value, str) and "decode" in c_.value for x_ in scope for c_ in ast.walk(x_))
+    ctx.check(okl, "locate", db.where(lp), "a filter name is no longer mapped decode.<enc> -> filters.decode.<enc> and otherwise through DEFAULT_ESCAPES (unknown names unchanged)", "decode.x -> filters.decode.x ; flag -> DEFAULT_ESCAPES ; other name unchanged")
+    # the value folded in derives from the loop variable on both branches (plain name / call with arguments)
+    defs_f = [s_ for s_ in ast.walk(lp) if isinstance(s_, ast.Assign) and isinstance(s_.targets[0], ast.Name) and fvar is not None and s_.targets[0].id == fvar]
+    callform = P.has(lp, "($i, $a) = $m.group(1, 2)\n...\n$e = $f + $a") or P.has(lp, "($i, $a) = $m.group(1, 2)\n$f = locate_encode($i)\n$e = $f + $a")
+    ctx.check(callform and (fvar == ev or bool(defs_f)), "call-filters", db.where(lp), "filters written as calls lose their arguments or are not resolved by name", "name resolved, arguments kept")
     wt = db.func("codegen._GenerateRenderMethod.write_toplevel")
     imp = [c for c in calls(wt, "self.printer.writeline") if const(c.args[0]) and str(const(c.args[0])).startswith("from mako import")]
     ok = bool(imp) and {"runtime", "filters", "cache"} <= set(const(imp[0].args[0]).replace("from mako import", "").replace(" ", "").split(","))
